@@ -25,10 +25,12 @@ const (
 	c02DecoyReload   // c02DecoyFirst, then reload
 	c02DecoyLastLoad // c02DecoyLast, then reload
 	c02BaseSymbols   // the token is built over WithSymbols(non-empty table)
+	c02Twice         // plain construction; the verdict is the one of a SECOND Authorize call on the same authorizer
+	c02TwiceReset    // … of an Authorize after Authorize; Reset; the same content again
 	c02NModes
 )
 
-var c02ModeNames = []string{"plain", "reloaded", "decoy builder built first", "decoy builder built last", "decoy first + reloaded", "decoy last + reloaded", "WithSymbols base table"}
+var c02ModeNames = []string{"plain", "reloaded", "decoy builder built first", "decoy builder built last", "decoy first + reloaded", "decoy last + reloaded", "WithSymbols base table", "second Authorize on one authorizer", "Authorize; Reset; same content; Authorize"}
 
 var c02Base = datalog.SymbolTable{"base0", "file2", "base2"}
 
@@ -172,8 +174,24 @@ func c02ModesSpace(c *sup.Ctx) *sup.Space {
 			w.Class("construction-refused")
 			return
 		}
-		parent := authorize(tokT, az.blk, az.pol)
-		child := authorize(tokTB, az.blk, az.pol)
+		verdict := func(t *biscuit.Biscuit) authOut {
+			if mode != c02Twice && mode != c02TwiceReset {
+				return authorize(t, az.blk, az.pol)
+			}
+			a, err := hx.Authorizer(t, az.blk, az.pol)
+			if err != nil {
+				return authOut{Class: "authorizer-error", Err: err}
+			}
+			a.Authorize()
+			if mode == c02TwiceReset {
+				a.Reset()
+				hx.Load(a, az.blk, az.pol)
+			}
+			err = a.Authorize()
+			return authOut{Class: hx.Classify(err), Failed: hx.FailedChecks(err), Err: err}
+		}
+		parent := verdict(tokT)
+		child := verdict(tokTB)
 		if child.Class == "ok" && parent.Class != "ok" {
 			w.Class("widened")
 			w.Violate("C02:append-widened:"+c02ModeNames[mode], human(), "T+B authorized, T "+parent.String(), "T+B refused whenever T is refused")
